@@ -52,7 +52,13 @@ func c06Scenario(r *vx.Rand) {
 	for i := 0; i < n; i++ {
 		k := pick(r, keys)
 		var f func()
-		switch x := r.Intn(100); {
+		x := r.Intn(100)
+		if x < 25 && pess && inAgg() {
+			// inside an aggressive-locking stage a statement only locks: its writes are statement-scoped in TiDB (a retried
+			// or cancelled attempt takes them back), so the program writes after aggdone
+			x = 30
+		}
+		switch {
 		case x < 12:
 			// a pessimistic transaction locks what it writes and gives the write up if the lock fails
 			fl := pick(r, []string{"-", "n"})
